@@ -423,6 +423,10 @@ class Executor:
                                 sv_str(f"cannot access local variable '{e.id}' where it is not associated with a value"))]
         if isinstance(v, tuple) and v and v[0] == "const":
             v = self.import_const(st, v)
+        if type(v).__name__ in ("_LV", "_H"):
+            # the target of a loop over a symbolic sequence read after (or, through a closure, independently of) the
+            # iteration that bound it / a loop-carried local without invariant: its value is not modelled
+            raise Unsupported(f"read of {e.id}, whose value ({v!r}) is not modelled here")
         return [(st, v)]
 
     def e_Tuple(self, e: ast.Tuple, st: State) -> List[Res]:
@@ -841,9 +845,11 @@ class Executor:
         if a is not b and (isinstance(a, Opaque) or isinstance(b, Opaque)):
             # nothing is known about an opaque value: it may well be the other operand
             op, other = (a, b) if isinstance(a, Opaque) else (b, a)
-            if isinstance(op.data, dict) and op.data.get("not_none") and isinstance(other, SV) \
-                    and z3.is_true(z3.simplify(Sc.is_none(other.t))):
-                return z3.BoolVal(False)  # the model that created the value states that it is an object, not None
+            is_object = (isinstance(op.data, dict) and op.data.get("not_none")) or op.tag.startswith("inst:")
+            if is_object and isinstance(other, SV) and z3.is_true(z3.simplify(Sc.is_none(other.t))):
+                return z3.BoolVal(False)  # an object (instance created by a modelled constructor / stated by the model)
+            if isinstance(a, Opaque) and isinstance(b, Opaque) and a.tag.startswith("inst:") and b.tag.startswith("inst:"):
+                return z3.BoolVal(False)  # two instances created at different points of the execution
             raise Unsupported(f"'is' between {a!r} and {b!r}")
         return z3.BoolVal(a is b)
 
